@@ -490,7 +490,7 @@ class Explorer:
                 if case is not MISSING:
                     args = [case] + args
                 try:
-                    I.call_function(hfunc, args, {})
+                    I.call_function(hfunc, args, {}, run_async=True)
                     completed = True
                 except PyRaise as e:
                     # an exception escaping the harness: exception-freedom obligation fails
@@ -704,8 +704,8 @@ def make_api_module(I, registry):
         """real_body(func_or_bound_method, *args): run the repository body even when a summary is active"""
         f = args[0]
         if isinstance(f, BoundMethod):
-            return I_.call_function(f.func, [f.self_] + list(args[1:]), kw, force_body=True)
-        return I_.call_function(f, list(args[1:]), kw, force_body=True)
+            return I_.call_function(f.func, [f.self_] + list(args[1:]), kw, force_body=True, run_async=True)
+        return I_.call_function(f, list(args[1:]), kw, force_body=True, run_async=True)
 
     @nf("known_finding")
     def _known(I_, args, kw):
